@@ -58,8 +58,8 @@ package template
 //@ schema any no-lock-held-at-exit {C06} every return and panic exit holds no lock
 //@ schema any no-lock-held-at-invoke {C06} no lock is held when the user function is called
 //@ schema any touches-only-own-list {C04,C05,C08} a function takes only the locks of the lists it is allowed to change
-//@ schema any snapshots-unchanged {C04} a critical section writes no cell of any slice returned earlier by an accessor
-//@ schema any snapshot-invariant-preserved {C04} after the section the list is nil, in a fresh array, or the same array grown in place
+//@ schema any snapshots-unchanged {C04,C05} a critical section writes no cell of any slice returned earlier by an accessor
+//@ schema any snapshot-invariant-preserved {C04,C05} after the section the list is nil, in a fresh array, or the same array grown in place
 //
 //@ schema method record-appended-once {C04,C05} the critical section of M makes calls.M exactly one record longer
 //@ schema method record-prefix-kept {C04,C05} earlier records are unchanged and keep their order
